@@ -98,6 +98,17 @@ def run(tier, seed):
         if got != [str(i + 1) for i in range(n)] or last_result(r)[0] != "ok":
             first_bad = next((i for i, (g, w) in enumerate(zip(got + [None] * n, [str(i + 1) for i in range(n)])) if g != w), None)
             rep.violation(f"a REPL session of {n} forms printed {len(got)} results (first deviation at form {first_bad}); end: {last_result(r)}", {"program": "(repl \">>> \" nil)", "env": "pr", "script": f"(add i 1) for i < {n}, one per line", "transcript_tail": r["out"][-300:]})
+    # a single form spread over very many lines: continuation lines must not cost recursion depth either
+    for nl in ((1100,) if tier == "quick" else (1100, 5000)):
+        script = "(add 1 2)\n(+\n" + "".join("1\n" for _ in range(nl)) + ")\n(add 3 4)\n"
+        a = run_driver_cases(evalcorr.driver_lines([{"text": "(repl \">>> \" nil)", "stdin": [script[i:i + 4096] for i in range(0, len(script), 4096)]}], "pr"), timeout=300.0)[0]
+        rep.evaluations += 1
+        r = dump.split_run_answer(a)
+        outl = [] if "special" in r else [l.replace(">>> ", "").replace("... ", "").strip() for l in r["out"].split("\n")]
+        nums = [x for x in outl if x.lstrip("-").isdigit()]
+        if "special" in r or nums != ["3", str(nl), "7"]:
+            rep.violation(f"a form spread over {nl + 2} lines was not read and evaluated as one form: the session printed the numbers {nums[:8]}{'...' if len(nums) > 8 else ''} instead of 3, {nl}, 7",
+                          {"program": "(repl \">>> \" nil)", "env": "pr", "script": f"(add 1 2) / (+ followed by {nl} lines holding 1 / ) / (add 3 4)", "observed": (r.get('special') or r['out'][-300:])})
     rep.coverage["long_session_forms"] = n
     if not rep.violations:
         report_disagreements(rep, sets, "standard input / REPL")
